@@ -29,7 +29,7 @@ func init() {
 
 func dd(t core.Tier) int {
 	if t == core.Thorough {
-		return 1
+		return 2
 	}
 	return 0
 }
@@ -38,13 +38,17 @@ func c03Scenarios(tier core.Tier) []scenario {
 	d := dd(tier)
 	orcs := func() []chain.Oracle { return []chain.Oracle{&chain.SpendOracle{}} }
 	return []scenario{
-		{Name: "c03.kv", Universe: "U-kv", Depth: 6 + d, Orcs: orcs,
+		{Name: "c03.kv", Universe: "U-kv", Depth: 5 + d, Orcs: orcs,
 			Menu: chain.Menu{Recv: true, Sync: true, Play: true, WalkSome: true, Submit: []string{"pW1", "pW2", "pR", "kvB", "kvF"}, Mine: 1, Blocks: []string{"k1", "k2", "j2", "j3"}}},
-		{Name: "c03.amt", Universe: "U-amt", Depth: 6 + d, Orcs: orcs,
+		{Name: "c03.amt", Universe: "U-amt", Depth: 5 + d, Orcs: orcs,
 			Menu: chain.Menu{Recv: true, Sync: true, Play: true, WalkSome: true, Submit: []string{"sA", "sA2", "sFrozen", "sUnbalanced", "tM"}, Mine: 1, Restart: true, Blocks: []string{"x1", "x2", "y1", "y2"}}},
-		{Name: "c03.3way", Universe: "U-3way", Depth: 6 + d, Orcs: orcs,
+		{Name: "c03.3way", Universe: "U-3way", Depth: 5 + d, Orcs: orcs,
 			Menu: chain.Menu{Recv: true, Sync: true, Play: true, WalkSome: true, Submit: []string{"tS", "tA2", "tD2", "tB2"}, Mine: 1, Blocks: []string{"a1", "a2", "d2", "b1", "b2", "dup3"}}},
-		{Name: "c03.defer", Universe: "U-3way", Depth: 6 + d, MaxCost: 1, Orcs: orcs,
+		{Name: "c03.fee", Universe: "U-3way-honest", Depth: 6 + d, Orcs: orcs,
+			Menu: chain.Menu{Recv: true, Sync: true, WalkSome: true, KeyEvents: true, Submit: []string{"sFee"}, Blocks: []string{"a1", "a2", "d2"}}},
+		{Name: "c03.family", Universe: "U-3way-honest", Depth: 6 + d, Orcs: orcs,
+			Menu: chain.Menu{Recv: true, Sync: true, Play: true, Submit: []string{"pP", "pC1", "pC2"}, Mine: 1, Blocks: []string{"a1", "b1"}}},
+		{Name: "c03.defer", Universe: "U-3way", Depth: 5 + d, MaxCost: 1, Orcs: orcs,
 			Menu: chain.Menu{Recv: true, Sync: true, Defer: true, Submit: []string{"tS", "tA2", "tD2"}, Mine: 1, Blocks: []string{"a1", "a2", "b1", "b2"}}},
 	}
 }
@@ -52,7 +56,7 @@ func c03Scenarios(tier core.Tier) []scenario {
 func c05Scenarios(tier core.Tier) []scenario {
 	d := dd(tier)
 	orcs := func() []chain.Oracle { return []chain.Oracle{&chain.TraceOracle{}} }
-	bad := []string{"a1", "a2", "b1", "b2", "cc2", "dup3", "o2"}
+	bad := []string{"a1", "a2", "b1", "b2", "cc2", "dup3", "o2", "bv2"}
 	flt := []string{"a1", "b1", "b2"}
 	if tier == core.Thorough {
 		bad = append(bad, "a3", "d2", "b3")
@@ -61,7 +65,7 @@ func c05Scenarios(tier core.Tier) []scenario {
 	return []scenario{
 		{Name: "c05.bad", Universe: "U-3way", Depth: 5 + d, Orcs: orcs,
 			Menu: chain.Menu{Recv: true, Sync: true, Play: true, Submit: []string{"tS", "tA2", "tD2"}, Mine: 1, Query: true, Blocks: bad}},
-		{Name: "c05.fault", Universe: "U-3way-honest", Depth: 4 + d, MaxCost: 1 + d, Orcs: orcs,
+		{Name: "c05.fault", Universe: "U-3way-honest", Depth: 4 + d, MaxCost: 1 + d/2, Orcs: orcs,
 			Menu: chain.Menu{Recv: true, Sync: true, Play: true, Submit: []string{"tS"}, Mine: 1, Fail: 3, Blocks: flt}},
 		{Name: "c05.kv", Universe: "U-kv", Depth: 5 + d, Orcs: orcs,
 			Menu: chain.Menu{Recv: true, Sync: true, Play: true, WalkSome: true, Submit: []string{"pW1", "pW2", "pR"}, Mine: 1, Blocks: []string{"k1", "k2", "j2"}}},
@@ -75,7 +79,7 @@ func c17Scenarios(tier core.Tier) []scenario {
 	orcs := func() []chain.Oracle { return []chain.Oracle{&chain.FinalityOracle{}} }
 	var out []scenario
 	for _, w := range []string{"1", "2", "3"} {
-		out = append(out, scenario{Name: "c17.w" + w, Universe: "U-3way-honest-w" + w, Depth: 7 + d, Orcs: orcs,
+		out = append(out, scenario{Name: "c17.w" + w, Universe: "U-3way-honest-w" + w, Depth: 6 + d, Orcs: orcs,
 			Menu: chain.Menu{Recv: true, Sync: true, WalkAll: true, Play: true, Mine: 1, Restart: true, Blocks: []string{"a1", "a2", "a3", "b1", "b2", "b3", "d2"}}})
 	}
 	out = append(out, scenario{Name: "c17.w0", Universe: "U-3way-honest", Depth: 6 + d, Orcs: orcs,
@@ -100,13 +104,13 @@ func c06Scenarios(tier core.Tier) []scenario {
 	d := dd(tier)
 	orcs := func() []chain.Oracle { return []chain.Oracle{&chain.CrashOracle{}} }
 	return []scenario{
-		{Name: "c06.3way", Universe: "U-3way-honest", Depth: 5 + d, Orcs: orcs,
+		{Name: "c06.3way", Universe: "U-3way-honest", Depth: 4 + d, Orcs: orcs,
 			Menu: chain.Menu{Recv: true, Sync: true, Play: true, WalkSome: true, Submit: []string{"tS", "tA2", "tD2"}, Mine: 1, Truncate: true, Blocks: []string{"a1", "a2", "b1", "b2", "b3"}}},
-		{Name: "c06.kv", Universe: "U-kv", Depth: 5 + d, Orcs: orcs,
+		{Name: "c06.kv", Universe: "U-kv", Depth: 4 + d, Orcs: orcs,
 			Menu: chain.Menu{Recv: true, Sync: true, Play: true, WalkSome: true, Submit: []string{"pW1", "pR"}, Mine: 1, Blocks: []string{"k1", "k2", "k3", "j2"}}},
-		{Name: "c06.amt", Universe: "U-amt", Depth: 5 + d, Orcs: orcs,
+		{Name: "c06.amt", Universe: "U-amt", Depth: 4 + d, Orcs: orcs,
 			Menu: chain.Menu{Recv: true, Sync: true, Submit: []string{"sA", "sA2"}, Mine: 2, Truncate: true, Blocks: []string{"x1", "x2", "y1", "y2"}}},
-		{Name: "c06.prune", Universe: "U-3way-honest-w1", Depth: 5 + d, Orcs: orcs,
+		{Name: "c06.prune", Universe: "U-3way-honest-w1", Depth: 4 + d, Orcs: orcs,
 			Menu: chain.Menu{Recv: true, Sync: true, WalkSome: true, Prune: true, Blocks: []string{"a1", "a2", "a3", "b1", "b2"}}},
 	}
 }
